@@ -12,7 +12,7 @@ OUT=$SD/eval.txt
 git -C /repo worktree remove --force $WT >/dev/null 2>&1
 git -C /repo worktree add -q $WT HEAD || { echo "worktree failed" >> $OUT; exit 2; }
 export CARGO_TARGET_DIR=/tmp/seed-target-$PROP   # shared per property to save rebuilds
-case $PROP in C17) CR=cli; PKG=okane;; C20) CR=golden; PKG=okane-golden;; *) CR=core; PKG=okane-core;; esac
+case $PROP in C16|C17) CR=cli; PKG=okane;; C20) CR=golden; PKG=okane-golden;; *) CR=core; PKG=okane-core;; esac
 run_demo() { # $1 label
   if [ -f $SD/demo.rs ]; then
     mkdir -p $WT/$CR/tests; cp $SD/demo.rs $WT/$CR/tests/seeded_demo.rs
